@@ -8,7 +8,8 @@ use refmodel::ir::OpKind;
 use refmodel::tensor::numel;
 use serde_json::{json, Value};
 
-const OPS: [&str; 5] = ["add", "sub", "mul", "div", "axpy"];
+const OPS: [&str; 8] = ["add", "sub", "mul", "div", "axpy(2)", "axpy(0)", "axpy(1)", "axpy(-0.5)"];
+const NOPS: u64 = 8;
 
 fn op_of(i: usize) -> OpKind {
     match i {
@@ -16,7 +17,10 @@ fn op_of(i: usize) -> OpKind {
         1 => OpKind::Sub,
         2 => OpKind::Mul,
         3 => OpKind::Div,
-        _ => OpKind::Axpy(2.0),
+        4 => OpKind::Axpy(2.0),
+        5 => OpKind::Axpy(0.0),
+        6 => OpKind::Axpy(1.0),
+        _ => OpKind::Axpy(-0.5),
     }
 }
 
@@ -25,8 +29,8 @@ fn op_of(i: usize) -> OpKind {
 fn exact_case(opi: usize, a: &[usize], b: &[usize]) -> FwdCase {
     let (na, nb) = (numel(a), numel(b));
     let (va, vb) = match opi {
-        0 | 1 | 4 => (iota(na, 1.0, 1.0), iota(nb, 256.0, 256.0)),
-        _ => (odds(na), pow2s(nb)),
+        2 | 3 => (odds(na), pow2s(nb)),
+        _ => (iota(na, 2.0, 2.0), iota(nb, 512.0, 512.0)),
     };
     FwdCase {
         op: op_of(opi),
@@ -87,11 +91,8 @@ fn random_case(r: &PairRecipe, max_elems: usize) -> Option<FwdCase> {
     }
     let va = gen_vals(r.vseed, numel(&a), VKind::Signed);
     let vb = gen_vals(r.vseed ^ 77, numel(&b), VKind::Signed);
-    Some(FwdCase {
-        op: op_of(r.opi),
-        leaves: vec![LeafSpec { dims: a, vals: va, tracked: false }, LeafSpec { dims: b, vals: vb, tracked: false }],
-        force_exact: None,
-    })
+    let op = if r.opi < 8 { op_of(r.opi) } else { OpKind::Axpy(((r.vseed >> 20) % 65) as f64 / 8.0 - 4.0) };
+    Some(FwdCase { op, leaves: vec![LeafSpec { dims: a, vals: va, tracked: false }, LeafSpec { dims: b, vals: vb, tracked: false }], force_exact: None })
 }
 
 pub fn dispatch(kind: &str, v: &Value) -> Option<Outcome> {
@@ -107,11 +108,11 @@ pub fn run(ctx: &Ctx) -> i32 {
     let ns = shapes.len() as u64;
     st.merge(ctx.run_indexed(
         "exhaustive-pairs-rank1..4-size1..3",
-        ns * ns * 5,
-        Some("all 120x120 ordered shape pairs of rank 1..4 with sizes 1..3, for add, sub, mul, div, axpy; exact pairing-distinct data"),
+        ns * ns * NOPS,
+        Some("all 120x120 ordered shape pairs of rank 1..4 with sizes 1..3, for add, sub, mul, div and axpy with alpha in {2, 0, 1, -0.5}; exact pairing-distinct data"),
         |i| {
-            let opi = (i % 5) as usize;
-            let p = i / 5;
+            let opi = (i % NOPS) as usize;
+            let p = i / NOPS;
             Some(exact_case(opi, &shapes[(p / ns) as usize], &shapes[(p % ns) as usize]))
         },
     ));
@@ -122,7 +123,7 @@ pub fn run(ctx: &Ctx) -> i32 {
             prop::collection::vec(any::<u8>(), max_rank),
             prop::collection::vec(1..=max_size, max_rank),
             1..=max_rank,
-            0..5usize,
+            0..12usize,
             any::<bool>(),
             any::<u64>(),
         )
